@@ -181,6 +181,60 @@ REUSE_OPS = [["Noop", T.BOOL], ["Noop", T.QB], ["Not"], ["DivMod", 3], ["MakeTup
              ["Call", ["Poly", [], O.G([], [O.INT5])], O.G([], [O.INT5]), []], ["LoadFunc", ["Poly", [], O.G([T.QB], [])], O.G([T.QB], []), []], ["Const", ["TRUE"]], ["DFG", [T.BOOL], [O.FN], []]]
 
 
+PARTIAL_ROWS = [[T.BOOL], [T.BOOL, T.BOOL], [T.BOOL, T.QB], [T.QB]]
+
+
+def check_partial_retry(kind, row):
+    """Operations whose types come from the wires they are given (Noop, MakeTuple, UnpackTuple): a first attempt
+    with a wire that cannot be used (it lives inside a sibling region) is refused; the same op object wired
+    again, this time with usable wires of the row `row`, reports exactly those types."""
+    from hugr import ops
+    from hugr.build.dfg import Dfg
+
+    fails = []
+    row_t = [T.build_type(t) for t in row]
+    outer = Dfg(T.build_type(T.QB), *row_t)
+    q, *good = outer.inputs()
+    left = outer.add_nested(q)
+    (q_inside,) = left.inputs()
+    left.set_outputs(q_inside)
+    right = outer.add_nested(*good)
+    rgood = list(right.inputs())
+    op = {"Noop": ops.Noop, "MakeTuple": ops.MakeTuple, "UnpackTuple": ops.UnpackTuple}[kind]()
+    if kind == "UnpackTuple":
+        mk = right.add_op(ops.MakeTuple(), *rgood)
+        rgood_args = [mk[0]]
+        bad_args = [q_inside]
+    elif kind == "Noop":
+        if len(rgood) != 1:
+            return []
+        rgood_args, bad_args = rgood, [q_inside]
+    else:
+        rgood_args, bad_args = rgood, [*rgood[:-1], q_inside] if len(rgood) > 1 else [q_inside]
+    try:
+        right.add_op(op, *bad_args)
+        return [(f"partial-retry:{kind}:foreign-wire-accepted", f"{kind}: a wire from inside a sibling region was accepted")]
+    except Exception:  # noqa: BLE001
+        pass
+    try:
+        n = right.add_op(op, *rgood_args)
+    except Exception as e:  # noqa: BLE001
+        return [(f"partial-retry:{kind}:retry-raised", f"{kind} over {row}: wiring the same op object again raised {type(e).__name__}: {e}")]
+    h = right.hugr
+    sig = h[n].op.outer_signature()
+    exp_in = [h.port_type(w.out_port()) for w in rgood_args]
+    if list(sig.input) != exp_in:
+        fails.append((f"partial-retry:{kind}:signature", f"{kind} refused once and wired again with {exp_in}: reports inputs {sig.input}"))
+    for i, t in enumerate(sig.output):
+        if h.port_type(n.out(i)) != t:
+            fails.append((f"partial-retry:{kind}:port-type", f"{kind}: port {i} has type {h.port_type(n.out(i))}, signature says {t}"))
+    if kind == "MakeTuple":
+        u = right.add_op(ops.UnpackTuple(), n[0])
+        if list(h[u].op.outer_signature().output) != exp_in:
+            fails.append((f"partial-retry:{kind}:not-inverse", f"UnpackTuple after the re-wired MakeTuple yields {h[u].op.outer_signature().output}, MakeTuple was given {exp_in}"))
+    return fails
+
+
 def check_reuse(a_spec, b_spec, how):
     """Port queries answer for the op a node holds *now*: node A is queried, deleted, its index
     reused by B (or its op replaced in place), and B is queried."""
@@ -246,6 +300,12 @@ def run(tier: str, seed: int) -> Result:
                 n_reuse += 1
                 for sig, msg in check_reuse(a, b, how):
                     col.add(sig, msg, {"reuse": [a, b, how]})
+    n_retry = 0
+    for kind in ("Noop", "MakeTuple", "UnpackTuple"):
+        for row in PARTIAL_ROWS:
+            n_retry += 1
+            for sig, msg in check_partial_retry(kind, row):
+                col.add(sig, msg, {"partial_retry": [kind, row]})
     kinds = {}
     for s in specs:
         kinds[s[0]] = kinds.get(s[0], 0) + 1
@@ -265,6 +325,7 @@ def run(tier: str, seed: int) -> Result:
         "exhaustive": True,
         "ops_per_kind": kinds,
         "index_reuse_cases": n_reuse,
+        "partial_retry_cases": n_retry,
     }
     return Result(cov, col.violations, ["R3 table: mc/drivers/opterms.py::ref_sig (from specification/hugr.md, ops/dataflow.rs, ops/controlflow.rs)",
                                         "types are compared by normalised encoding (Unit spelling == General spelling)"])
@@ -273,4 +334,6 @@ def run(tier: str, seed: int) -> Result:
 def replay(case) -> list[Violation]:
     if "reuse" in case:
         return [Violation(s, m, case) for s, m in check_reuse(*case["reuse"])]
+    if "partial_retry" in case:
+        return [Violation(s, m, case) for s, m in check_partial_retry(*case["partial_retry"])]
     return [Violation(s, m, case) for s, m in check_op(case["op"])]
